@@ -35,6 +35,7 @@ pub mod split_items;
 pub mod client_items;
 mod runner;
 mod h_retry;
+mod h_codec;
 
 fn main() {
     let mut v = put_validation::harness::harnesses();
@@ -43,5 +44,6 @@ fn main() {
     v.extend(node_quote::harness::harnesses());
     v.extend(replication_items::harness::harnesses());
     v.extend(h_retry::harnesses());
+    v.extend(h_codec::harnesses());
     runner::main_dispatch(v);
 }
